@@ -36,6 +36,7 @@ Enabled(rd, id, op, n) ==
        [] op = "skip"  -> n <= RemOf(rd[id])
        [] op = "sub"   -> n <= RemOf(rd[id])
        [] op = "bytes" -> TRUE
+       [] op = "len"   -> TRUE          \* query (len / is_empty): no effect
        [] OTHER -> FALSE
 
 \* what the call returns: octets for read; <<octets>> or << >> for bytes; the new
@@ -46,6 +47,7 @@ Returns(src, rd, id, op, n) ==
     [] op = "bytes" -> IF n <= RemOf(c) THEN <<Slice(src, c.from, n)>> ELSE << >>
     [] op = "sub"   -> Len(rd) + 1
     [] op = "skip"  -> << >>
+    [] op = "len"   -> RemOf(c)
 
 \* successor cursor state
 After(rd, id, op, n) ==
@@ -53,6 +55,7 @@ After(rd, id, op, n) ==
   CASE op \in {"read", "skip"} -> [rd EXCEPT ![id].from = @ + n]
     [] op = "sub"   -> Append([rd EXCEPT ![id].from = @ + n], Cursor(c.from, c.from + n))
     [] op = "bytes" -> IF n <= RemOf(c) THEN [rd EXCEPT ![id].from = @ + n] ELSE rd
+    [] op = "len"   -> rd
 
 \* after bytes() returned nothing the position of that cursor is unconstrained
 Poisons(rd, id, op, n) == op = "bytes" /\ n > RemOf(rd[id])
